@@ -41,8 +41,13 @@ type slot struct {
 	Reserved bool   `json:"reserved_label,omitempty"`
 	Policy   uint16 `json:"policy"`
 	Via      string `json:"via"` // specific | subnet | reserved-object | none
-	g        *genPod
-	ko       *util.KeyObj
+	// set for a pod whose owner kind is string-related to the kind of the pod in slot PartnerIP (same ns/app/pod/pool)
+	Adv       *advKind `json:"adversarial_kind,omitempty"`
+	OwnerKind string   `json:"owner_kind,omitempty"`
+	PartnerIP string   `json:"partner_ip,omitempty"`
+	partner   *slot
+	g         *genPod
+	ko        *util.KeyObj
 }
 
 type entry struct {
@@ -104,20 +109,8 @@ func (c *apiCase) violate(sig, msg string, extra map[string]interface{}) {
 // observe counts an observation that is not a violation and keeps the first example per counter in the evidence
 // under "observations".
 func (c *apiCase) observe(counter string, example interface{}) {
-	c.run.Count(counter, 1)
-	obsMu.Lock()
-	defer obsMu.Unlock()
-	if observations[counter] == nil {
-		observations[counter] = example
-		cp := map[string]interface{}{}
-		for k, v := range observations {
-			cp[k] = v
-		}
-		c.run.Set("observations", cp)
-	}
+	observeRun(c.run, counter, example)
 }
-
-var observations = map[string]interface{}{}
 
 // slotTable is the whole ground truth (part of witnesses where the whole state matters).
 func (c *apiCase) slotTable() []*slot {
@@ -183,7 +176,8 @@ var coreKinds = []string{"statefulset-pod", "statefulset-pod", "deployment-pod",
 	"tapp-pod", "customkind-pod", "barepod", "pooled-statefulset-pod", "pooled-deployment-pod", "pooled-barepod",
 	"pooled-customkind-pod", "app-prefix", "pool-prefix", "reserved-freetext", "reserved-podkey", "reserved-poolkey",
 	"free", "free",
-	"statefulset-pod", "barepod", "app-prefix", "pool-prefix", "app-prefix", "pool-prefix"}
+	"statefulset-pod", "barepod", "app-prefix", "pool-prefix", "app-prefix", "pool-prefix",
+	"advkind-pod", "advkind-pod", "advkind-pod", "tapp-pod", "advkind-pod"}
 
 func ownerClassOfKind(kind string) string {
 	k := strings.TrimPrefix(kind, "pooled-")
@@ -235,6 +229,7 @@ func (c *apiCase) build() bool {
 	var reservedSlots []*slot
 	sharedPods := []*slot{}
 	prefixSlots := map[string][]*slot{}
+	var advSlots []*slot
 	for n, oi := range order {
 		ip := all[oi]
 		var kind string
@@ -252,6 +247,10 @@ func (c *apiCase) build() bool {
 		s := &slot{IP: ip, Kind: kind, Policy: uint16(r.Intn(3)), Via: "none"}
 		c.slots[ip] = s
 		if kind == "free" {
+			continue
+		}
+		if kind == "advkind-pod" {
+			advSlots = append(advSlots, s) // filled in once the built-in-kind pods exist
 			continue
 		}
 		if kind == "reserved-freetext" {
@@ -390,6 +389,45 @@ func (c *apiCase) build() bool {
 		}
 	}
 
+	// adversarial owner kinds: the same namespace / app / pod / pool names as a pod of a kind galaxy treats specially,
+	// under a kind that has it as proper prefix / suffix / plural / case variant. Two pods of one (namespace, name)
+	// cannot exist at once, so both are absent from the lister (the ips are what deleted workloads left behind).
+	var partners []*slot
+	usedPartner := map[*slot]int{}
+	for _, ip := range all {
+		if p := c.slots[ip]; p.g != nil && p.Presence == "absent" && !p.Reserved && !strings.HasPrefix(p.Kind, "textpool-") &&
+			len(builtinsOfOwnerClass(p.g.OwnerClass)) > 0 {
+			partners = append(partners, p)
+		}
+	}
+	for _, s := range advSlots {
+		s.Kind = "free"
+		if len(partners) == 0 {
+			continue
+		}
+		p := partners[r.Intn(len(partners))]
+		if usedPartner[p] >= 2 {
+			continue
+		}
+		bs := builtinsOfOwnerClass(p.g.OwnerClass)
+		kinds := advKindsOf(bs[r.Intn(len(bs))])
+		a := kinds[r.Intn(len(kinds))]
+		// judged relations are the point; same-class aliases only now and then
+		if kindClass(a.Kind) == kindClass(ownKind(p.g)) && r.Intn(3) != 0 {
+			a = kinds[r.Intn(len(kinds))]
+		}
+		q := advSibling(r, p.g, p.ko.AppName, a)
+		ko, err := util.FormatKey(q.Pod)
+		if err != nil {
+			continue
+		}
+		usedPartner[p]++
+		s.Kind, s.Key, s.g, s.ko, s.Presence, s.Via = "advkind-pod", ko.KeyInDB, q, ko, "absent", "specific"
+		s.Adv, s.partner, s.OwnerKind = &a, p, a.Kind
+		p.OwnerKind = ownKind(p.g)
+		specificSlots = append(specificSlots, s)
+	}
+
 	// real plugin on fake clientsets, as floatingip_plugin_test.go's newPlugin does
 	var conf schedulerplugin.Conf
 	if err := json.Unmarshal([]byte(confJSON), &conf); err != nil {
@@ -453,6 +491,14 @@ func (c *apiCase) build() bool {
 		}
 		c.slots[s.IP] = s
 		c.run.Count("api_alloc_subnet", 1)
+	}
+	for _, ip := range c.allIPs {
+		if s := c.slots[ip]; s.partner != nil {
+			s.PartnerIP = s.partner.IP
+			if c.slots[s.partner.IP] != s.partner {
+				s.Adv, s.partner = nil, nil // partner was a subnet slot that found no ip
+			}
+		}
 	}
 	// sanity: the IPAM holds exactly the ground truth
 	d := c.dump()
@@ -880,6 +926,107 @@ func (c *apiCase) realByPrefix() {
 			}
 		}
 	}
+}
+
+// ---------------------------------------------------------------------------------------------------------------
+// adversarial owner kinds in the API: decode, filter by appType, cross posts
+
+func (c *apiCase) filterIPs(e entry) (map[string]bool, bool) {
+	q := url.Values{"size": {"9999"}, "namespace": {e.Namespace}, "appName": {e.AppName}, "appType": {e.AppType}}
+	if e.PoolName != "" {
+		q.Set("poolName", e.PoolName)
+	}
+	lr, _, _, err := c.list(q)
+	c.run.Count("api_kindpairs_filter_queries", 1)
+	if err != nil || lr == nil {
+		return nil, false
+	}
+	m := map[string]bool{}
+	for _, x := range lr.entries {
+		m[x.IP] = true
+	}
+	return m, true
+}
+
+// kindPairs checks every (special-kind pod, adversarial-kind sibling) pair of the population.
+func (c *apiCase) kindPairs(lr *listResp, state map[string]string) map[string]string {
+	byIP := map[string]entry{}
+	for _, e := range lr.entries {
+		byIP[e.IP] = e
+	}
+	for _, ip := range c.allIPs {
+		sq := c.slots[ip]
+		if sq.Adv == nil || sq.partner == nil {
+			continue
+		}
+		sp := sq.partner
+		eq, ok1 := byIP[sq.IP]
+		ep, ok2 := byIP[sp.IP]
+		if !ok1 || !ok2 || state[sq.IP] == "" || state[sp.IP] == "" {
+			continue
+		}
+		tag := sq.Adv.tag()
+		judged := kindClass(sq.Adv.Kind) != kindClass(ownKind(sp.g))
+		c.run.Count("api_kindpairs_"+sq.Adv.Relation, 1)
+		w := map[string]interface{}{"builtin_slot": sp, "adversarial_slot": sq, "builtin_listed": ep.raw, "adversarial_listed": eq.raw}
+		if !judged {
+			c.run.Count("api_kindpairs_same_class_observed", 1)
+			if sq.Key == sp.Key {
+				c.observe("obs_kind_alias_shares_key_"+tag, w)
+			}
+			continue
+		}
+		c.run.Count("api_kindpairs_judged", 1)
+		ok := true
+		// decode at the API: the listed app type is the owner's own class
+		if !strings.EqualFold(eq.AppType, kindClass(sq.Adv.Kind)) {
+			ok = false
+			c.violate("list-apptype-decode-"+tag, fmt.Sprintf("ip %s of a pod owned by kind %q (key %q) is listed with appType %q",
+				sq.IP, sq.Adv.Kind, sq.Key, eq.AppType), w)
+		}
+		if sq.Key == sp.Key {
+			ok = false
+			c.violate("key-collision-"+tag, fmt.Sprintf("ips %s (owner kind %s) and %s (owner kind %s) are held under one key %q",
+				sp.IP, ownKind(sp.g), sq.IP, sq.Adv.Kind, sq.Key), w)
+		}
+		// filter by appType returns only that owner's ips
+		for _, dir := range []struct {
+			by    entry
+			other *slot
+			name  string
+		}{{ep, sq, "builtin"}, {eq, sp, "adversarial"}} {
+			if ips, got := c.filterIPs(dir.by); got && ips[dir.other.IP] {
+				ok = false
+				w2 := copyW(w)
+				w2["filter"] = map[string]string{"appType": dir.by.AppType, "namespace": dir.by.Namespace, "appName": dir.by.AppName, "poolName": dir.by.PoolName}
+				c.violate("filter-by-apptype-returns-other-owners-ip-"+tag, fmt.Sprintf(
+					"GET /v1/ip?appType=%s&namespace=%s&appName=%s (the listed fields of the %s owner's ip) also returns %s of the other owner (key %q)",
+					dir.by.AppType, dir.by.Namespace, dir.by.AppName, dir.name, dir.other.IP, dir.other.Key), w2)
+			}
+		}
+		// one owner's listed fields with the other owner's ip never free anything
+		for _, dir := range []struct {
+			fields entry
+			ip     string
+		}{{ep, sq.IP}, {eq, sp.IP}} {
+			code, rr, sent, err := c.post(withField(dir.fields.raw, "ip", dir.ip))
+			c.run.Count("api_kindpairs_crossposts", 1)
+			w2 := copyW(w)
+			w2["posted"], w2["http"], w2["response"], w2["err"] = json.RawMessage(sent), code, rr, fmt.Sprint(err)
+			after := c.dump()
+			if d := diff(state, after); len(d) > 0 {
+				ok = false
+				w2["changes"] = d
+				c.violate("crosspost-frees-other-owners-ip-"+tag, fmt.Sprintf(
+					"the listed fields of ip %s posted with ip %s of the other owner changed the IPAM: %v", dir.fields.IP, dir.ip, d), w2)
+			}
+			state = after
+		}
+		if ok {
+			c.run.Nontrivial("api-kindpair|" + tag)
+		}
+	}
+	return state
 }
 
 // ---------------------------------------------------------------------------------------------------------------
@@ -1610,6 +1757,7 @@ func runAPICase(run *evid.Run, idx int) {
 		state = c.dump()
 	}
 	c.realByPrefix()
+	state = c.kindPairs(l0, state)
 	// (c) another owner's ip / another owner's fields
 	state = c.crossPosts(l0, state)
 	// (b) releasable:false stays
